@@ -275,6 +275,10 @@ func (w *World) lintFn(fn *ssa.Function, path []string) (hits []lintHit, mapRang
 				if strings.HasPrefix(n, "math/rand.") || strings.HasPrefix(n, "math/rand/v2.") || strings.HasPrefix(n, "crypto/rand.") {
 					hit("call "+n, in)
 				}
+				switch n { // unstable sorts: the relative order of equal elements is unspecified - a census site
+				case "sort.Slice", "sort.Sort", "slices.SortFunc", "golang.org/x/exp/slices.SortFunc":
+					hit("unstable sort "+n, in)
+				}
 			}
 		}
 	}
